@@ -396,11 +396,13 @@ def run(ctx):
             if c.name != "next" or not c.args:
                 continue
             g = dom_guards(inc_b, c.block)
-            ev = [(d, l) for d, l, _ in g if re.match(r"^eq\(event_[12], ReadEvent::(StartBody|EndRecord)\(\)\)$", d) and l == "true"]
+            ev = [(d, l) for d, l, _ in g if re.match(r"^eq\(.+, ReadEvent::(StartBody|EndRecord)\(\)\)$", d) and l == "true"]
             if not ev:
                 continue
-            ctxg = [(d, l) for d, l, _ in g if not d.startswith("disc(") and not re.match(r"^(eq|ne)\((event_[12]|tuple\(next)", d)]
-            skips.append((c, ev[-1][0], ctxg))
+            # guards that are not a comparison of events (with each other or with a constant event) and not the shape of the iterator results
+            ctxg = [(d, l) for d, l, _ in g if not d.startswith("disc(") and not re.match(r"^(eq|ne)\(", d)]
+            side = "event_1" if inc_b.copy_root(c.args[0]) == 1 else "event_2"
+            skips.append((c, "%s %s" % (side, ev[-1][0].split("ReadEvent::")[1]), ctxg))
         if len(skips) < 4:
             raise AnchorMissing("incremental_compare: expected the four skip sites (StartBody / EndRecord on either side), found %d" % len(skips))
         free = [(c, e) for c, e, cg in skips if not cg]
